@@ -3,6 +3,7 @@
   `parseRdata_render_<kind>` per syntax.
 -/
 import QV.Proofs.ZoneFile.Gaps
+import QV.Proofs.ZoneFile.Wks
 
 namespace QV.ZF
 open QV QV.Spec.ZF
@@ -237,6 +238,54 @@ theorem gapText_pos {g : PGap} (h : g ≠ []) : 0 < (gapText g).length := by
       | newline c cr => cases cr <;> simp [gapItemText, eolText]
     simp only [gapText, List.flatMap_cons, List.length_append]
     omega
+
+/-! ### WKS: protocol field -/
+
+theorem lower_upper (b : UInt8) : lowerU8 (upperU8 b) = lowerU8 b := by
+  revert b
+  apply QV.Wire.forall_uint8
+  decide +kernel
+
+theorem eqIgnoreCase_of_upper {a b : List UInt8} (h : a.map upperU8 = b.map upperU8) : eqIgnoreCase a b = true := by
+  unfold eqIgnoreCase
+  have : (a.map upperU8).map lowerU8 = (b.map upperU8).map lowerU8 := by rw [h]
+  simpa [List.map_map, Function.comp_def, lower_upper] using this
+
+/-- the field is the keyword in some mix of upper and lower case: consumed -/
+theorem expectFieldCI_match (kw t X : List UInt8) (hu : t.map upperU8 = kw.map upperU8) (hX : atFieldEnd X = true)
+    (line : Nat) (p : Bool) : expectFieldCI kw ⟨t ++ X, line, p⟩ = (true, ⟨X, line, p⟩) := by
+  have hl : t.length = kw.length := by simpa using congrArg List.length hu
+  unfold expectFieldCI expectFieldImpl
+  simp [← hl, eqIgnoreCase_of_upper hu, hX]
+
+/-- the first octets differ even without case: nothing consumed -/
+theorem expectFieldCI_head_ne (k : UInt8) (ks : List UInt8) (c : UInt8) (t : List UInt8) (h : lowerU8 c ≠ lowerU8 k)
+    (line : Nat) (p : Bool) : expectFieldCI (k :: ks) ⟨c :: t, line, p⟩ = (false, ⟨c :: t, line, p⟩) := by
+  unfold expectFieldCI expectFieldImpl
+  split
+  · rfl
+  · have : eqIgnoreCase (c :: List.take ks.length t) (k :: ks) = false := by
+      simp [eqIgnoreCase, h]
+    simp [this]
+
+theorem tcp_bytes : "TCP".toUTF8.toList = [84, 67, 80] := by decide +kernel
+theorem udp_bytes : "UDP".toUTF8.toList = [85, 68, 80] := by decide +kernel
+
+theorem digit_not_t_u (c : UInt8) (h : isDigit c = true) : lowerU8 c ≠ lowerU8 84 ∧ lowerU8 c ≠ lowerU8 85 := by
+  revert c
+  apply QV.Wire.forall_uint8
+  decide +kernel
+
+theorem upperU_not_t (c : UInt8) (h : upperU8 c = 85) : lowerU8 c ≠ lowerU8 84 := by
+  revert c
+  apply QV.Wire.forall_uint8
+  decide +kernel
+
+/-- the protocol field of WKS as the writer may put it: `TCP` / `UDP` in any mix of upper and
+    lower case, or a number up to 255 -/
+def WFProto : PCode → Prop
+  | .generic n => n ≤ 255
+  | .mnemonic t n => mnemonicFor protoMnemonics t n
 
 /-! ### the kinds -/
 
@@ -728,12 +777,163 @@ theorem parseRdata_txt_text (cls : Nat) (s : PString) (ss : List PString) (hwf :
   simp only [bind, P.bind, getLine, this]
   simp only [List.reverse_nil, List.nil_append, mkRdata_ok _ hlen]
 
+/-- the port loop of WKS -/
+theorem wksLoop_render (sl : Nat) (H : Nat → PGap) (Q : Nat → Bool) (ports : List Nat) (i : Nat)
+    (hp : ∀ p ∈ ports, p ≤ 65535)
+    (hH : ∀ j, i ≤ j → j < i + ports.length → GapOK (H j) (Q j) (Q (j + 1)))
+    (hT : TailOK tg cmt (Q (i + ports.length)))
+    (acc : List Nat) (n : Nat) (hn : n + ports.length ≤ 65535) (line' : Nat) :
+    wksLoop sl ⟨portsText H i ports ++ (tailText tg cmt eol ++ r), line', Q i⟩ acc n =
+      .ok (acc.reverse ++ ports, ⟨r, line' + portsLines H i ports + gapLines tg + eolLines eol, false⟩) := by
+  induction ports generalizing acc n line' i with
+  | nil =>
+    have hT' : TailOK tg cmt (Q i) := by simpa using hT
+    rw [wksLoop.eq_def]
+    simp only [portsText, List.nil_append, fieldOrEol_tail tg cmt _ hT' eol r he]
+    simp [portsLines]
+  | cons p ps ih =>
+    have hg := hH i (by omega) (by simp)
+    have hpp := hp p (by simp)
+    have hE : atFieldEnd (portsText H (i + 1) ps ++ (tailText tg cmt eol ++ r)) = true := by
+      cases ps with
+      | nil =>
+        have hT' : TailOK tg cmt (Q (i + 1)) := by simpa using hT
+        simpa [portsText] using atFieldEnd_tail tg cmt _ hT' eol r he
+      | cons x xs =>
+        simp only [portsText, List.append_assoc]
+        exact (hH (i + 1) (by omega) (by simp)).atEnd _
+    have hXs : Starts (decimal p ++ (portsText H (i + 1) ps ++ (tailText tg cmt eol ++ r))) :=
+      (starts_decimal p).append _
+    rw [wksLoop.eq_def]
+    simp only [portsText, List.append_assoc,
+      fieldOrEol_gapG true (H i) (Q i) (Q (i + 1)) hg.wf hg.run _ hXs]
+    have e : ¬ n ≥ 65535 := by simp at hn; omega
+    simp only [e, ↓reduceIte, show parseU16 = parseUInt 65535 from rfl,
+      readField_decimal 65535 p hpp (by omega) _ _ hE]
+    have hgl : 0 < (gapText (H i)).length := gapText_pos hg.ne
+    have hprog : (portsText H (i + 1) ps ++ (tailText tg cmt eol ++ r)).length <
+        (gapText (H i) ++ (decimal p ++ (portsText H (i + 1) ps ++ (tailText tg cmt eol ++ r)))).length := by
+      simp only [List.length_append]; omega
+    simp only [hprog, ↓reduceIte]
+    rw [ih (i + 1) (fun q hq => hp q (by simp [hq]))
+      (fun j h1 h2 => hH j (by omega) (by simp; omega))
+      (by have : i + 1 + ps.length = i + (p :: ps).length := by simp; omega
+          rw [this]; exact hT) _ _ (by simp at hn ⊢; omega)]
+    simp only [portsLines, List.reverse_cons, List.append_assoc, List.cons_append, List.nil_append]
+    congr 3
+    omega
+
+/-- IN WKS: address, protocol, ports — whatever `serialize_in_wks` makes of them (`newInWks`) -/
+theorem parseRdata_wks_text (a b c d : Nat) (ha : a ≤ 255) (hb : b ≤ 255) (hcc : c ≤ 255) (hd : d ≤ 255)
+    (pr : PCode) (hpr : WFProto pr) (ports : List Nat) (hp : ∀ p ∈ ports, p ≤ 65535) (hlen : ports.length ≤ 65535)
+    (hG : ∀ i, i ≤ 1 + ports.length → GapOK (G i) (S i) (S (i + 1))) (hT : TailOK tg cmt (S (1 + ports.length + 1))) :
+    parseRdata ctx 1 11 ⟨gapText (G 0) ++ (quadText a b c d ++ (gapText (G 1) ++ (protoText pr ++
+        (portsText (fun i => G (i + 1)) 1 ports ++ (tailText tg cmt eol ++ r))))), line, S 0⟩ =
+      .ok (newInWks [UInt8.ofNat a, UInt8.ofNat b, UInt8.ofNat c, UInt8.ofNat d] pr.value ports,
+        ⟨r, line + gapLines (G 0) + gapLines (G 1) + portsLines (fun i => G (i + 1)) 1 ports + gapLines tg + eolLines eol,
+          false⟩) := by
+  have harm : findArm 1 11 = some "parse_in_wks_rdata" := by decide
+  have hE : atFieldEnd (portsText (fun i => G (i + 1)) 1 ports ++ (tailText tg cmt eol ++ r)) = true := by
+    cases ports with
+    | nil => simpa [portsText] using atFieldEnd_tail tg cmt _ (by simpa using hT) eol r he
+    | cons x xs =>
+      simp only [portsText, List.append_assoc]
+      exact (hG 2 (by simp; omega)).atEnd _
+  have hloop := wksLoop_render tg cmt eol r he (line + gapLines (G 0)) (fun i => G (i + 1)) (fun i => S (i + 1)) ports 1 hp
+    (fun j _ h2 => hG (j + 1) (by omega)) (by simpa [Nat.add_comm, Nat.add_left_comm] using hT) [] 0 (by omega)
+    (line + gapLines (G 0) + gapLines (G 1))
+  have hmk := (newInWks_length [UInt8.ofNat a, UInt8.ofNat b, UInt8.ofNat c, UInt8.ofNat d] pr.value ports rfl hp).2
+  have hq := quadText_length a b c d ha hb hcc hd
+  rw [parseRdata_typed ctx 1 11 _ harm _ _ _ (hG 0 (by omega)) (quadText a b c d) _ ((starts_decimal a).append _)
+    (by simpa [quadText] using decimal_not_bh a _) ((hG 1 (by omega)).atEnd _) line]
+  show inWksRdataBody _ = _
+  unfold inWksRdataBody
+  simp only [Nat.zero_add]
+  have hip := readField_plain parseIpv4 .InvalidIpv4 (quadText a b c d)
+    (gapText (G 1) ++ (protoText pr ++ (portsText (fun i => G (i + 1)) 1 ports ++ (tailText tg cmt eol ++ r))))
+    _ (quadText_plain a b c d) (by omega) ((hG 1 (by omega)).atEnd _)
+    (parseIpv4_render a b c d (by omega) (by omega) (by omega) (by omega)) (line + gapLines (G 0)) (S 1)
+  cases pr with
+  | generic n =>
+    have hn : n ≤ 255 := hpr
+    obtain ⟨dd, ds, hdd, _⟩ := decimal_head n
+    have hdig := decimal_digits n dd (by rw [hdd]; simp)
+    have hS : Starts (protoText (.generic n) ++ (portsText (fun i => G (i + 1)) 1 ports ++ (tailText tg cmt eol ++ r))) :=
+      (starts_decimal n).append _
+    have h1 : ∀ l q, expectFieldCI [84, 67, 80] ⟨decimal n ++ (portsText (fun i => G (i + 1)) 1 ports ++ (tailText tg cmt eol ++ r)), l, q⟩ =
+        (false, ⟨decimal n ++ (portsText (fun i => G (i + 1)) 1 ports ++ (tailText tg cmt eol ++ r)), l, q⟩) := by
+      intro l q; rw [hdd]; exact expectFieldCI_head_ne _ _ _ _ (digit_not_t_u dd hdig).1 l q
+    have h2 : ∀ l q, expectFieldCI [85, 68, 80] ⟨decimal n ++ (portsText (fun i => G (i + 1)) 1 ports ++ (tailText tg cmt eol ++ r)), l, q⟩ =
+        (false, ⟨decimal n ++ (portsText (fun i => G (i + 1)) 1 ports ++ (tailText tg cmt eol ++ r)), l, q⟩) := by
+      intro l q; rw [hdd]; exact expectFieldCI_head_ne _ _ _ _ (digit_not_t_u dd hdig).2 l q
+    simp only [protoText] at hS hip ⊢
+    simp only [PCode.value] at hmk
+    simp only [bind, P.bind, getLine, hip, (hG 1 (by omega)).skip _ _ hS, liftB, tcp_bytes, udp_bytes, h1, h2,
+      Bool.false_eq_true, ↓reduceIte, show parseU8 = parseUInt 255 from rfl,
+      readField_decimal 255 n hn (by omega) _ _ hE, hloop, PCode.value, List.reverse_nil, List.nil_append,
+      mkRdata_ok _ hmk]
+  | mnemonic t v =>
+    obtain ⟨m, hm, hu⟩ := (hpr : mnemonicFor protoMnemonics t v)
+    rw [upperOctet_eq] at hu
+    have hw := mnemonic_word (tbl := protoMnemonics) (by decide +kernel) hm
+      (by simp only [protoMnemonics, List.mem_cons, Prod.mk.injEq, List.not_mem_nil, or_false] at hm
+          rcases hm with ⟨rfl, _⟩ | ⟨rfl, _⟩ <;> decide +kernel)
+      (by simp only [protoMnemonics, List.mem_cons, Prod.mk.injEq, List.not_mem_nil, or_false] at hm
+          rcases hm with ⟨rfl, _⟩ | ⟨rfl, _⟩ <;> decide +kernel) hu
+    have hS : Starts (t ++ (portsText (fun i => G (i + 1)) 1 ports ++ (tailText tg cmt eol ++ r))) := by
+      obtain ⟨c0, t0, h0, hs0⟩ := hw.1.head (portsText (fun i => G (i + 1)) 1 ports ++ (tailText tg cmt eol ++ r))
+      exact ⟨c0, t0, h0, hs0⟩
+    simp only [protoMnemonics, List.mem_cons, Prod.mk.injEq, List.not_mem_nil, or_false] at hm
+    simp only [protoText] at hip ⊢
+    simp only [PCode.value] at hmk
+    rcases hm with ⟨rfl, rfl⟩ | ⟨rfl, rfl⟩
+    · rw [tcp_bytes] at hu
+      have h1 : ∀ l q, expectFieldCI [84, 67, 80] ⟨t ++ (portsText (fun i => G (i + 1)) 1 ports ++ (tailText tg cmt eol ++ r)), l, q⟩ =
+          (true, ⟨portsText (fun i => G (i + 1)) 1 ports ++ (tailText tg cmt eol ++ r), l, q⟩) :=
+        fun l q => expectFieldCI_match _ t _ (by rw [hu]; decide) hE l q
+      simp only [bind, P.bind, pure, P.pure, getLine, hip, (hG 1 (by omega)).skip _ _ hS, liftB, tcp_bytes, udp_bytes, h1,
+        ↓reduceIte, hloop, PCode.value, List.reverse_nil, List.nil_append, mkRdata_ok _ hmk]
+    · rw [udp_bytes] at hu
+      have h2 : ∀ l q, expectFieldCI [85, 68, 80] ⟨t ++ (portsText (fun i => G (i + 1)) 1 ports ++ (tailText tg cmt eol ++ r)), l, q⟩ =
+          (true, ⟨portsText (fun i => G (i + 1)) 1 ports ++ (tailText tg cmt eol ++ r), l, q⟩) :=
+        fun l q => expectFieldCI_match _ t _ (by rw [hu]; decide) hE l q
+      have h1 : ∀ l q, expectFieldCI [84, 67, 80] ⟨t ++ (portsText (fun i => G (i + 1)) 1 ports ++ (tailText tg cmt eol ++ r)), l, q⟩ =
+          (false, ⟨t ++ (portsText (fun i => G (i + 1)) 1 ports ++ (tailText tg cmt eol ++ r)), l, q⟩) := by
+        intro l q
+        cases t with
+        | nil => simp at hu
+        | cons c0 t0 =>
+          simp only [List.map_cons, List.cons.injEq] at hu
+          exact expectFieldCI_head_ne _ _ _ _ (upperU_not_t c0 hu.1) l q
+      simp only [bind, P.bind, pure, P.pure, getLine, hip, (hG 1 (by omega)).skip _ _ hS, liftB, tcp_bytes, udp_bytes, h1, h2,
+        Bool.false_eq_true, ↓reduceIte, hloop, PCode.value, List.reverse_nil, List.nil_append, mkRdata_ok _ hmk]
+
 end kinds
 
 /-! ### all kinds together -/
 
 /-- the text does not begin with the RFC 3597 marker `\#` (write a leading `#` as `\035`) -/
 abbrev notBh (T : List UInt8) : Prop := ¬ [92, 35] <+: T
+
+/-- WKS and known finding D18: the bit map the parser builds is the RFC's when the repository
+    sets the bits most significant first; with the other order (`1 << (port % 8)`) only when
+    every octet of the bit map reads the same in both directions (no ports at all; ports 0 and 7
+    together; …) — see `newInWksWith_eq` for what it is otherwise -/
+def WksOrderOK (ports : List Nat) : Prop :=
+  Gen.wksMaskMsbFirst = true ∨ ∀ o ∈ wksBitmap ports, revBits o = o
+
+instance (ports : List Nat) : Decidable (WksOrderOK ports) := by unfold WksOrderOK; infer_instance
+
+theorem newInWks_of_orderOK (addr : List UInt8) (proto : Nat) (ports : List Nat) (h : WksOrderOK ports) :
+    newInWks addr proto ports = wksWire addr proto ports := by
+  unfold newInWks wksWire
+  rw [newInWksWith_eq]
+  rcases h with h | h
+  · simp [h]
+  · cases Gen.wksMaskMsbFirst
+    · simp only [Bool.false_eq_true, ↓reduceIte]
+      rw [List.map_congr_left h, List.map_id']
+    · simp
 
 /-- what the writer of RDATA must respect: numbers in range, names and strings well formed -/
 def WFRdata : PRdata → Prop
@@ -753,6 +953,8 @@ def WFRdata : PRdata → Prop
   | .aaaaV4 hd none a b c d => hd.length = 6 ∧ (∀ g ∈ hd, g < 65536) ∧ a ≤ 255 ∧ b ≤ 255 ∧ c ≤ 255 ∧ d ≤ 255
   | .aaaaV4 hd (some tl) a b c d => hd.length + tl.length + 2 ≤ 7 ∧ (∀ g ∈ hd, g < 65536) ∧ (∀ g ∈ tl, g < 65536) ∧
       a ≤ 255 ∧ b ≤ 255 ∧ c ≤ 255 ∧ d ≤ 255
+  | .wks a b c d pr ports => a ≤ 255 ∧ b ≤ 255 ∧ c ≤ 255 ∧ d ≤ 255 ∧ WFProto pr ∧ (∀ p ∈ ports, p ≤ 65535) ∧
+      ports.length ≤ 65535 ∧ WksOrderOK ports
 
 /-- **RDATA.**  The text of well-formed RDATA of the right kind for `(cls, ty)`, with any
     well-formed gaps before, inside and after it, is read back by `parse_rdata` as the RDATA it
@@ -963,5 +1165,15 @@ theorem parseRdata_render (ctx : Ctx) (hctx : CtxWF ctx) (cls ty : Nat) (h41 : t
         (by simp only [List.length_append, List.length_cons]; omega) hp
         (by simp [hlen2]; omega) hG hT
       simpa [rdataText, rdataLines] using this
+  | wks a b c d pr ports =>
+    obtain ⟨ha, hb, hcc, hd, hpr, hp, hlen, hord⟩ := hwf
+    simp only [kindOK, Bool.and_eq_true, beq_iff_eq] at hk
+    obtain ⟨rfl, rfl⟩ := hk
+    simp only [rdataWire, Option.some.injEq] at hw
+    subst hw
+    simp only [rdataGaps] at hG hT
+    have := parseRdata_wks_text ctx G S tg cmt eol r he line a b c d ha hb hcc hd pr hpr ports hp hlen hG hT
+    rw [newInWks_of_orderOK _ _ _ hord] at this
+    simpa [rdataText, rdataLines, Nat.add_assoc] using this
 
 end QV.ZF
